@@ -150,8 +150,10 @@ func VerifHarness_Step(lo, hi, fork uint64) {
 		}
 	}
 	alloc0 := verifWorkAlloc()
+	verifStepContract, verifStepGas0, verifStepNested = contract, gas, &nested
 
 	ret, err := env.interp.Run(verifCtx, contract, input, verifBool("readonly"))
+	verifStepContract = nil
 	verifReach("returned")
 	_ = ret
 
@@ -232,4 +234,19 @@ func VerifHarness_StepCancel(opb uint64) {
 			verifAssert(gas-contract.Gas <= 20, "C17: a cancelled execution stops promptly (no further instruction is charged)")
 		}
 	}
+}
+
+// verifStepOOB is called by the engine (never natively) when the instruction under test asks
+// for an allocation larger than the encoding's buffers: the size is still symbolic, and the
+// gas the interpreter has charged by then must pay for it.
+var verifStepContract *Contract
+var verifStepGas0 uint64
+var verifStepNested *int
+
+func verifStepOOB(size uint64) {
+	if verifStepContract == nil || (verifStepNested != nil && *verifStepNested > 0) {
+		return
+	}
+	used := verifStepGas0 - verifStepContract.Gas
+	verifAssert(size/64 <= used+128, "C20: allocation beyond the encoded buffer sizes is paid for by the gas charged before it")
 }
